@@ -232,6 +232,14 @@ def replay_file(path, times=3, timeout=1800):
     """Re-run a saved case (bypassing rapidcheck); returns (n_fail, n_runs, last_output)."""
     path = os.path.abspath(path)
     blob = json.load(open(path))
+    if blob.get("fuzz_artifact"):   # a saved libFuzzer input: run the target on it (the saved input is the reproducible unit)
+        exe = build.compile_fuzz_target(blob["fuzz_target"])
+        nfail, tail = 0, ""
+        for _ in range(times):
+            p = subprocess.run([exe, blob["fuzz_artifact"]], stdout=subprocess.PIPE, stderr=subprocess.STDOUT, env=dict(os.environ, ASAN_OPTIONS="abort_on_error=1:detect_leaks=0"))
+            tail = p.stdout.decode("utf-8", "replace")[-2000:]
+            nfail += 1 if p.returncode != 0 else 0
+        return nfail, times, tail
     cfg = blob["config"]
     exe = build.compile_harness(blob["check"], cfg["build"], cfg["backend"])
     nfail = 0
@@ -280,6 +288,9 @@ def finish(res, confirm=True, custom_replay=None):
             res.known_hits.append((known, f))
             continue
         path = write_replay(res.prop, f)
+        if f.get("fuzz_artifact"):
+            blob = json.load(open(path)); blob["fuzz_artifact"] = f["fuzz_artifact"]; blob["fuzz_target"] = f["check"]
+            json.dump(blob, open(path, "w"), indent=1)
         f["replay"] = path
         if confirm and f.get("case") is not None and not f.get("no_replay"):
             nf, nr, tail = (custom_replay or replay_file)(path)
@@ -340,3 +351,44 @@ def finish(res, confirm=True, custom_replay=None):
 
 def rc_params(seed, max_success, max_size=100, extra=""):
     return ("seed=%d max_success=%d max_size=%d max_discard_ratio=50 %s" % (seed, max_success, max_size, extra)).strip()
+
+
+def run_fuzz(res, target, seconds, workers, seed, prop):
+    """E4: libFuzzer campaign(s) on harness/fuzz/<target>.cpp.  Only crash-* artefacts count (semantic oracle traps inside the
+    target; ASan reports abort); a budget that runs out is simply the end of the exploration."""
+    import glob, re
+    exe = build.compile_fuzz_target(target)
+    base = tempfile.mkdtemp(prefix="fuzz-%s-" % target, dir=build.BUILD_ROOT)
+    _WORKDIRS.append(base)
+    seedcorp = os.path.join(VERIF, "harness", "fuzz", "corpus", target)
+    procs = []
+    for w in range(workers):
+        cdir = os.path.join(base, "corpus%d" % w)
+        adir = os.path.join(base, "art%d" % w)
+        os.makedirs(cdir); os.makedirs(adir)
+        cmd = [exe, "-max_total_time=%d" % seconds, "-seed=%d" % (splitmix(seed, 900 + w) % (2 ** 31 - 1) + 1), "-use_value_profile=1", "-print_final_stats=1",
+               "-artifact_prefix=" + adir + "/", "-max_len=4096", cdir] + ([seedcorp] if os.path.isdir(seedcorp) and w % 2 == 0 else [])
+        env = dict(os.environ, ASAN_OPTIONS="abort_on_error=1:detect_leaks=0")
+        procs.append((w, adir, subprocess.Popen(cmd, stdout=subprocess.DEVNULL, stderr=subprocess.PIPE, env=env, cwd=base)))
+    execs = 0
+    for w, adir, p in procs:
+        try:
+            _, err = p.communicate(timeout=seconds + 600)
+        except subprocess.TimeoutExpired:
+            p.kill(); _, err = p.communicate()
+            res.inconclusive.append({"job": "fuzz %s #%d" % (target, w), "reason": "did not stop within budget"})
+        err = err.decode("utf-8", "replace")
+        m = re.search(r"stat::number_of_executed_units:\s*(\d+)", err)
+        n = int(m.group(1)) if m else 0
+        execs += n
+        for art in sorted(glob.glob(os.path.join(adir, "crash-*"))):
+            os.makedirs(FINDINGS_OUT, exist_ok=True)
+            dst = os.path.join(FINDINGS_OUT, "%s-%s-%s" % (prop, target, os.path.basename(art)))
+            shutil.copy(art, dst)
+            vio = [l for l in err.splitlines() if "VIOLATION" in l or "ERROR: AddressSanitizer" in l or l.startswith("case:")]
+            res.failures.append({"check": target, "config": {"build": "fuzz", "backend": "nayuki-portable"}, "case": None, "no_replay": True, "fuzz_artifact": dst,
+                                 "why": "libFuzzer artefact %s: %s" % (os.path.basename(art), " | ".join(vio)[:1200]), "sig": "fuzz/%s" % target})
+    res.evaluations += execs
+    res.per_config["fuzz/%s" % target] = {"evaluations": execs, "jobs": workers, "seconds_each": seconds}
+    res.classes["fuzz_%s_execs" % target] = execs
+    return execs
